@@ -142,6 +142,9 @@ func mkSteps(spec ...string) []step {
 			s.cl, _ = strconv.Atoi(f[1])
 			s.other = 1 - s.cl
 		}
+		if len(f) > 2 {
+			s.idx, _ = strconv.Atoi(f[2]) // position selector of the one-byte-off steps
+		}
 		switch f[0] {
 		case "fetch":
 			s.kind, s.method = kFetch, "GET"
@@ -163,6 +166,10 @@ func mkSteps(spec ...string) []step {
 			s.kind, s.method, s.ext, s.ck = kPost, "POST", selOwn, selEmpty
 		case "other-in-cookie":
 			s.kind, s.method, s.ext, s.ck = kPost, "POST", selOwn, selOther
+		case "one-byte-off-cookie":
+			s.kind, s.method, s.ext, s.ck = kPost, "POST", selOwn, selMut
+		case "one-byte-off-extractor":
+			s.kind, s.method, s.ext, s.ck = kPost, "POST", selMut, selOwn
 		case "delete-token-post":
 			s.kind, s.method, s.ext, s.ck = kDel, "POST", selOwn, selOwn
 		case "delete-token-get":
@@ -224,7 +231,9 @@ var wildPool = []otuple{
 }
 
 var originHosts = []string{"example.com", "example.com", "app.example.com", "example.com:8080", "EXAMPLE.com",
-	"shop.test", "localhost:3000", "10.0.0.5:8443", "trusted.com", "a.example.com"}
+	"shop.test", "localhost:3000", "10.0.0.5:8443", "trusted.com", "a.example.com",
+	// explicit ports on the Host side that are a default port of one of the two schemes
+	"example.com:80", "example.com:443", "app.example.com:443", "shop.test:80"}
 
 func genTrusted(r *gen.Rand) (ts []trustEntry, cfgs []string) {
 	n := r.PickW(2, 4, 3, 1)
@@ -317,8 +326,13 @@ func litFor(cfg *hcfg, raw string) *hdrVal {
 	canon := h.tuple.canon()
 	ok, why := allowed(h.tuple, cfg.req, cfg.trusted)
 	h.relation = "cross"
-	if ok {
+	switch {
+	case ok:
 		h.relation = why
+	case h.tuple.host == cfg.req.host && h.tuple.scheme == cfg.req.scheme:
+		h.relation = "same-port-diff"
+	case h.tuple.host == cfg.req.host && h.tuple.port == cfg.req.port:
+		h.relation = "same-scheme-flip"
 	}
 	switch {
 	case raw == canon:
@@ -444,6 +458,44 @@ func corpus(e *ev.Env) {
 						e.Stat("decoy_keylookup_configs", 1)
 					}
 				}
+			}
+		}
+	})
+	// Near misses of the double-submit comparison: two live tokens of equal length that differ in one
+	// position only (first / middle / last but one / last), and the own token with one byte changed
+	// in the cookie or in the extractor.
+	e.Corpus("near-miss-tokens", func(c *ev.Case) {
+		for style := 0; style <= 4; style++ {
+			for _, ex := range []string{"header", "form", "query", "param"} {
+				for _, be := range []string{bVstore, bSessStore} {
+					cfg := fixedCfg(be, ex, false)
+					cfg.tokStyle, cfg.prefix = style, "tokenab"
+					hs := &histSpec{cfg: cfg, nClients: 2, steps: mkSteps("fetch:0", "fetch:1", "other-in-extractor:1", "other-in-cookie:1",
+						"one-byte-off-cookie:1:0", "one-byte-off-cookie:1:1", "one-byte-off-cookie:1:2", "one-byte-off-cookie:1:3",
+						"one-byte-off-extractor:1:0", "one-byte-off-extractor:1:1", "one-byte-off-extractor:1:2", "one-byte-off-extractor:1:3",
+						"own:1", "other-in-extractor:0", "own:0")}
+					_, nt := runHistory(e, c, hs, nil, "")
+					noteHistory(e, hs, nt)
+				}
+			}
+		}
+	})
+	// Ports: the other scheme's default port is a different origin, on the header side and on the Host side.
+	e.Corpus("origin-other-default-port", func(c *ev.Case) {
+		for _, mode := range []int{smHTTP, smTLS} {
+			sch, other := schemeOf(mode), 80
+			if sch == "http" {
+				other = 443
+			}
+			own := defPort(sch)
+			for _, host := range []string{"example.com", "example.com:" + strconv.Itoa(other), "example.com:" + strconv.Itoa(own), "example.com:8080"} {
+				cfg := originCorpusCfg(mode, host)
+				hs := &histSpec{cfg: cfg, nClients: 1, steps: mkSteps("fetch")}
+				for _, v := range []string{sch + "://example.com", sch + "://example.com:" + strconv.Itoa(other), sch + "://example.com:" + strconv.Itoa(own),
+					sch + "://example.com:8080", sch + "://example.com:" + strconv.Itoa(other) + "/form"} {
+					hs.steps = append(hs.steps, probe(cfg, v, ""), probe(cfg, "", v))
+				}
+				runHistory(e, c, hs, nil, "")
 			}
 		}
 	})
